@@ -40,6 +40,12 @@ LEVEL_TEXT += (
     "assembled values with an absolute constant (expected count zero; "
     "positive examples in the self-test); the COO consumers and "
     "interpolate are decided by symbolic runs.")
+LEVEL_TEXT += (
+    " Added in the hunting round (defects found by independent agents "
+    "on the unchanged tree, DESIGN.md 9.4 / 9.6): "
+    "dot accumulates in a vector with one entry per row in a common "
+    "dtype; interpolate returns as many fields as the basis functions "
+    "have components.")
 LEVEL_NOTE = (
     "Trusted: scipy coo_matrix sums duplicates and takes (data, (row, "
     "col)); numpy flatten/zeros/sum semantics. Local sizes are symbolic in "
